@@ -199,8 +199,33 @@ static void run_pool(Rng& g, long nops, std::size_t node_size, std::size_t block
         default: return g.below(live.size());      // random
         }
     };
+    Pool*             older = nullptr; // the pool that will be move-assigned into the current one
+    std::vector<Live> stash;           // its live allocations
+    long              assign_in = 0;
+    auto              do_assign = [&]
+    { // *pool = std::move(*older): the current pool's blocks (and everything allocated from it) go back upstream
+        O->verify_all("before move assignment");
+        for (auto& l : live)
+            O->forget(l.id);
+        live.clear();
+        *pool = std::move(*older);
+        emit("pool move_assign" + ListKind<List>::proxies(pool->free_list_), "done", pool_state(*pool));
+        long lk0 = Handlers::leak();
+        auto a0 = Handlers::leak_amounts().size();
+        older->~Pool();
+        emit("pool destroy_moved_from", lk_result(lk0, a0), "-");
+        older = nullptr;
+        live.swap(stash);
+        ++n_moves;
+        O->verify_all("after move assignment");
+    };
     for (long i = 0; i < nops && O->failures.empty(); ++i)
     {
+        if (older && --assign_in <= 0)
+        {
+            do_assign();
+            continue;
+        }
         unsigned k = g.below(100);
         // phases: fill / drain bias
         bool     drain = (i / 40) % 3 == 2;
@@ -375,6 +400,24 @@ static void run_pool(Rng& g, long nops, std::size_t node_size, std::size_t block
             }
             ++n_cycles;
         }
+        else if (k < 88 && older == nullptr && g.chance(45))
+        { // a second pool of the same kind becomes the primary; the older one is move-ASSIGNED into it later
+            void*       nm = R->place_object(sizeof(Pool), alignof(Pool), g.chance(50));
+            Pool*       np = nullptr;
+            std::string res = guarded([&] { np = ::new (nm) Pool(node_size, block_size, RegionAlloc(*R)); });
+            std::string op = fmt("pool new2 %zu %zu kind=%s arrays=%d src=%s", node_size, block_size, ListKind<List>::name(),
+                                 (int)PoolType::value, SrcDump<typename Pool::allocator_type>::init(block_size).c_str());
+            if (np)
+                op += ListKind<List>::proxies(np->free_list_);
+            emit(op, res.empty() ? "done" : res, np ? pool_state(*np) : "-");
+            if (!np)
+                continue;
+            emit("pool switch", "done", pool_state(*np));
+            older = pool;
+            pool = np;
+            stash.swap(live);
+            assign_in = 4 + long(g.below(30));
+        }
         else if (k < 88)
         { // move construction to a new object (placed below or above the blocks), then destroy the moved-from pool
             void* nm = R->place_object(sizeof(Pool), alignof(Pool), g.chance(50));
@@ -411,6 +454,8 @@ static void run_pool(Rng& g, long nops, std::size_t node_size, std::size_t block
             }
         }
     }
+    if (older && O->failures.empty())
+        do_assign();
     if (bad_mode && O->failures.empty())
     { // C16: releases the debug checks cover must be reported (or stop the program) before the state changes.
       // Each bad call runs in a forked child; the parent's pool is untouched.
@@ -604,8 +649,33 @@ static void run_coll(Rng& g, long nops, std::size_t max_node, std::size_t block_
         default: return 1 + g.below(mx);
         }
     };
+    Coll*             older = nullptr;
+    std::vector<Live> stash;
+    long              assign_in = 0;
+    auto              do_assign = [&]
+    {
+        O->verify_all("before move assignment");
+        for (auto& l : live)
+            O->forget(l.id);
+        live.clear();
+        *c = std::move(*older);
+        emit("coll move_assign", "done", coll_state(*c));
+        long lk0 = Handlers::leak();
+        auto a0 = Handlers::leak_amounts().size();
+        older->~Coll();
+        emit("coll destroy_moved_from", lk_result(lk0, a0), "-");
+        older = nullptr;
+        live.swap(stash);
+        ++n_moves;
+        O->verify_all("after move assignment");
+    };
     for (long i = 0; i < nops && O->failures.empty(); ++i)
     {
+        if (older && --assign_in <= 0)
+        {
+            do_assign();
+            continue;
+        }
         unsigned k = g.below(100);
         bool     drain = (i / 50) % 3 == 2;
         if (drain && !live.empty() && k < 60)
@@ -784,6 +854,24 @@ static void run_coll(Rng& g, long nops, std::size_t max_node, std::size_t block_
             }
             ++n_cycles;
         }
+        else if (k < 94 && older == nullptr && g.chance(45))
+        { // a second collection becomes the primary; the older one is move-assigned into it later
+            void*       nm = R->place_object(sizeof(Coll), alignof(Coll), g.chance(50));
+            Coll*       nc = nullptr;
+            std::string res = guarded([&] { nc = ::new (nm) Coll(max_node, block_size, RegionAlloc(*R)); });
+            std::string op = fmt("coll new2 %zu %zu kind=%s dist=%s arrays=%d src=%s", max_node, block_size, ListKind<List>::name(), distname,
+                                 (int)PoolType::value, SrcDump<typename Coll::allocator_type>::init(block_size).c_str());
+            if (nc)
+                op += fmt(" array=%zu n=%zu", R->off(nc->pools_.array_), nc->pools_.no_elements_);
+            emit(op, res.empty() ? "done" : res, nc ? coll_state(*nc) : "-");
+            if (!nc)
+                continue;
+            emit("coll switch", "done", coll_state(*nc));
+            older = c;
+            c = nc;
+            stash.swap(live);
+            assign_in = 4 + long(g.below(30));
+        }
         else if (k < 94)
         {
             void* nm = R->place_object(sizeof(Coll), alignof(Coll), g.chance(50));
@@ -813,6 +901,8 @@ static void run_coll(Rng& g, long nops, std::size_t max_node, std::size_t block_
             }
         }
     }
+    if (older && O->failures.empty())
+        do_assign();
     O->verify_all("before final release");
     while (!live.empty() && O->failures.empty())
         release(g.below(live.size()));
@@ -955,6 +1045,7 @@ int main(int argc, char** argv)
     }
     else
         return 2;
+    region.verify_all_poison();
     for (auto& e : region.errors)
         std::printf("oracle-fail ledger: %s\n", e.c_str());
     if (!region.outstanding.empty())
